@@ -629,6 +629,34 @@ func genGapRun(r *Rng, spec *RunSpec, storm, thorough bool) {
 	}
 }
 
+// hugeTableRuns: once per batch, documents whose used-id table grows past 2^16 and 2^17
+// entries (that many DISTINCT headings), followed by repeated texts and a literal suffix: a
+// table that stops recording, switches representation or overflows a counter at such a size
+// hands out an id twice. Judged like every other conversion (reference equality, and the
+// per-document clauses on the output).
+func hugeTableRuns(p *histParams, st *Stats) {
+	for k, n := range []int{1<<16 + 5, 1<<17 + 5} {
+		var b strings.Builder
+		for i := 0; i < n; i++ {
+			fmt.Fprintf(&b, "## i%d\n", i)
+		}
+		b.WriteString("# Notes\n\nNotes\n===\n\n> - ## Notes\n\n# notes-1\n\n# Notes\n\n## i7\n")
+		spec := &RunSpec{Property: p.prop, Engine: "hist", VerifSeed: p.verifSeed, Run: -1 - k, RunSeed: "huge-table",
+			Cfg: Config{AutoID: true}, Docs: [][]byte{[]byte(b.String())}, Clients: [][]Op{{{Kind: "Convert", Doc: 0, Stack: "W1"}}}, Note: "huge used-id table"}
+		v := executeSpec(spec, st)
+		st.Inc("probe.c15_docs_with_more_than_65536_ids")
+		if v != nil {
+			st.Inc("violations_seen")
+			if len(st.Violations) < p.maxVio {
+				reportViolation(spec, v, st, p.replayDir, false) // a 1.5 MB document: every shrinking candidate costs seconds
+			}
+		}
+		if hung {
+			return
+		}
+	}
+}
+
 // genFault draws a fault plan; offsets up to maxK.
 func genFault(r *Rng, maxK int) *FaultPlan {
 	f := genFault0(r, maxK)
@@ -665,6 +693,9 @@ func histWorker(p *histParams, st *Stats) {
 		curProc = &ProcHistory{Tier: p.tier, Shard: p.shard, Of: p.of, Runs: p.runs}
 	}
 	lastRun := -1
+	if p.prop == "C15" && p.ctl == nil && p.shard == 0 {
+		hugeTableRuns(p, st)
+	}
 	// Garbage collection is an event the simulator owns here (GC ops inside histories): the
 	// automatic collector is switched off and a collection is forced at fixed run indexes, so
 	// that what sync.Pool caches of the code under test hold at any operation is a function of
